@@ -41,6 +41,21 @@ check("C04", "exploration",
       "Trusted: reference model, serde_json. Closing the connection in answer to a oneway request is allowed.",
       "model-based + metamorphic (remove-oneway twin) testing; stateful client histories via proptest", "DESIGN.md §4 C04")
 
+check("C03", "exploration",
+      "proptest-generated services (0-6 recording interfaces with structurally related names, optionally the generator-made org.verif.test family, arbitrary info/description strings) x method strings derived from the registered names (exact, prefix, extension, case variant, empty element, leading/trailing dot, no dot, built-in) x arbitrary JSON parameters x flags; an independent routing oracle (split at last dot, set lookup) decides who must have seen the call and which reply / standard error must come back; GetInfo and GetInterfaceDescription are checked against the configured values verbatim.",
+      "Trusted: serde_json (floats compared after its own text round trip), the recorder interfaces. For ill-typed `interface` parameters and method names without a dot only 'no success reply' is asserted.",
+      "property-based testing against an independent routing oracle", "DESIGN.md §4 C03")
+
+check("C05", "exploration",
+      "Server: all 341 (quick; 5461 thorough) scripts over {set_continues(b), reply, reply_error} x 4 flag combinations inside a hand-written Interface::call, plus random scripts with arbitrary values, judged by a reference interpreter of the statement (wire bytes and per-action result). Client: k = 0..32 sweep and random scripted reply streams (arbitrary continues parameters, final result or standard/custom error, follow-up calls) from a fake service on a socketpair; more() must yield exactly the sent items, then end, slots returned, follow-ups aligned.",
+      "Trusted: serde_json; the fake service writes replies before the client calls (deterministic, no threads).",
+      "bounded-exhaustive script enumeration + proptest vs. reference interpreter; scripted fake server", "DESIGN.md §4 C05")
+
+check("C07", "exploration",
+      "(a) proptest over final reply objects vs. an independent reply->outcome mapping; (b) every client operation history up to length 4 (quick) / 5 (thorough) and random ones up to 12 against a model of the connection slot state, with the fake server's byte log proving that rejected calls wrote nothing; (c) 2-8 real threads sharing one connection against a live scripted server with generated op lists (sampled OS schedules, schedule-independent oracle: own token or busy error, intact request log, idle and usable afterwards).",
+      "Trusted: serde_json, the fake/live scripted servers. (c) samples schedules only; a hang would end as exit 2 via the watchdog.",
+      "model-based stateful testing (bounded-exhaustive + proptest) and randomized multi-thread stress with invariant oracle", "DESIGN.md §4 C07")
+
 ALL = ["C%02d" % i for i in range(1, 21)]
 
 NOT_BUILT_REASON = "check not built yet in this round (design in DESIGN.md §4); not claimed until it exists and is validated"
